@@ -203,6 +203,9 @@ Definition loading_get {V} (c : lru V) (k : N) (load : V) : V * lru V :=
 
 (* ---- JavaScriptWithContext -------------------------------------------------------------------- *)
 Definition NODE : N := 0.                    (* the interned name "_node" *)
+(* vmArgs[argNameNode] = getNodeJSON(n) is executed AFTER the caller's args were put into the
+   map: a caller arg that is itself named _node is overridden - _node is always the node *)
+Notation node_override a j := (<[NODE := JStr j]> a).
 
 Inductive argname := NmStr (n : N) | NmOther.     (* args[2i].(string) may fail *)
 
@@ -274,7 +277,7 @@ Definition js_call (r : rt) (compile : N -> option script) (st : jsstate) (c : c
             let '(a', seen, st2) :=
               match c_node c with
               | Some (id, now) => let '(j, st2) := get_node_json st1 id now in
-                                  (<[NODE := JStr j]> a, Some j, st2)
+                                  (node_override a j, Some j, st2)
               | None => (a, None, st1)
               end in
             let '(st3, res) := exec_program r st2 sc p a' in
